@@ -24,7 +24,7 @@ class ZoomMon(Monitor):
 
     def after_mc(self, ev):
         self.ev.append(ev)
-        if ev["phase"] in ("pull", "query", "last"):
+        if ev["phase"] in ("pull", "query", "last", "midquery"):
             self.v("C11:cell_refined_outside_receive_reward", phase=ev["phase"])
 
     def idx(self, arm):
@@ -80,14 +80,15 @@ class ZoomMon(Monitor):
                                                            1e-9, 1e-9 * max(abs(v) for v in h)):
             self.v("C11:arm_statistics_differ_from_its_own_history", count=a.pulled_times.get(arm), pulls=len(h),
                    mean=float(a.average_rewards.get(arm)), ref=math.fsum(h) / len(h))
-        rad = math.sqrt(8 * self.phase / (2 + len(h)))
-        thr = self.nu * self.rho ** cell.get_depth()
+        admissible, rad, thr = C.radius_le_threshold(self.phase, len(h), self.nu, self.rho, cell.get_depth())
         mine = [e for e in self.ev if e["part"] is self.part]
         self.obs["refinement_decisions_checked"] += 1
         if len(mine) > 1:
             self.v("C11:more_than_one_refinement_in_a_round", count=len(mine))
         refined = len(mine) >= 1
-        if refined not in C.le3(rad, thr):
+        if rad == thr:
+            self.obs["refinement_decisions_at_exact_equality"] += 1
+        if refined not in admissible:
             self.v("C11:refinement_decision_differs_from_the_rule", radius=rad, threshold=thr, refined=refined,
                    depth=cell.get_depth(), pulls=len(h), phase=self.phase)
         if refined:
